@@ -183,6 +183,11 @@ pub fn tamper_statement(
                     env::register_u64(&format!("pp_{}_{}", idx, j), "promise", conc, json!({"member":idx,"j":j,"substituted":true}));
                     Some(conc)
                 },
+                Value::String(s) if s == "other" => match promises[j] {
+                    // a concrete promise that differs value-wise from the original (None == Some(0))
+                    None | Some(0) => Some(1),
+                    Some(p) => Some(p - 1),
+                },
                 Value::String(s) => Some(s.parse::<u64>().unwrap()),
                 _ => None,
             };
